@@ -387,12 +387,14 @@ class TileCreator(object):
             created_tiles = self._create_meta_tile(meta_tile)
         else:
             meta_tiles = []
-            meta_bboxes = set()
+            # meta tiles are identified by their main tile: the bbox of different meta tiles can be the
+            # same where a large buffer is truncated at the grid border
+            seen_meta_tiles = set()
             for tile in tiles:
                 meta_tile = self.meta_grid.meta_tile(tile.coord)
-                if meta_tile.bbox not in meta_bboxes:
+                if meta_tile.main_tile_coord not in seen_meta_tiles:
                     meta_tiles.append(meta_tile)
-                    meta_bboxes.add(meta_tile.bbox)
+                    seen_meta_tiles.add(meta_tile.main_tile_coord)
 
             created_tiles = self._create_meta_tiles(meta_tiles)
 
